@@ -149,13 +149,15 @@ func conclude(a *Agg, start time.Time, shards int, isReplay bool) int {
 	}
 	fmt.Printf("%s tier=%s seed=%d evaluations=%d distinct_nontrivial=%d violations(unlisted)=%d known=%d inconclusive=%d wall=%.1fs\n",
 		spec.ID, a.Tier, a.Seed, evals, nontriv, unlisted, len(knownSeen), len(a.Inconcl), time.Since(start).Seconds())
+	for i, s := range a.Inconcl {
+		if i < 8 {
+			fmt.Println("INCONCLUSIVE:", tailStr(s, 1000))
+		}
+	}
 	if unlisted > 0 {
 		return 1
 	}
 	if len(a.Inconcl) > 0 {
-		for _, s := range a.Inconcl {
-			fmt.Println("INCONCLUSIVE:", tailStr(s, 1000))
-		}
 		return 2
 	}
 	if evals == 0 || nontriv < 2 {
